@@ -73,6 +73,9 @@ Pub(c, d) ==
         m == [id |-> c, hash |-> Hash(ToyPayload(d.p)), nonce |-> d.nn, t |-> d.t, shards |-> sh]
     IN [m |-> m, ct |-> Cipher(KeyOf(sh, d.t), d.nn, CtrOf(c), ToyPayload(d.p)), p |-> ToyPayload(d.p)]
 
+\* zero-arity constant tables (TLC evaluates them once): every publication, every corruption of it
+PubT == [c \in Ids |-> [d \in Desc |-> Pub(c, d)]]
+
 FlipAt(s, i) == IF i \in 1 .. Len(s) THEN [s EXCEPT ![i] = @ ^^ 1] ELSE s
 TwoArg == {"foreignmanifest", "foreignct"}
 \* x: the publication tampered with, y: a second publication of the same chunk id (used by TwoArg kinds)
@@ -89,6 +92,10 @@ Tamper(kind, x, y) ==
       [] kind = "shardlast"       -> [m |-> [x.m EXCEPT !.shards[2] = @ ^^ 1], ct |-> x.ct]
       [] kind = "foreignmanifest" -> [m |-> y.m, ct |-> x.ct]
       [] kind = "foreignct"       -> [m |-> x.m, ct |-> y.ct]
+
+TamperT == [c \in Ids |-> [kind \in Kinds |-> [d \in Desc |-> [e \in (IF kind \in TwoArg THEN Desc ELSE {d}) |->
+               LET r == Tamper(kind, PubT[c][d], PubT[c][e]) pt == Open(r.m, r.ct)
+               IN [m |-> r.m, ct |-> r.ct, pt |-> pt, genuine |-> (Hash(pt) = r.m.hash)]]]]]
 
 \* ---- the model --------------------------------------------------------------------------------------------
 VARIABLES held,       \* chunk_store_:  id -> None | [ct, nonce]
@@ -115,7 +122,7 @@ MInit == /\ held = [c \in Ids |-> None] /\ cache = [c \in Ids |-> None] /\ shard
 
 \* Node::store_chunk: hash, fresh key, seal, put, split the key, cache the manifest, publish the shares, announce
 Store(c, d) ==
-    LET x == Pub(c, d) IN
+    LET x == PubT[c][d] IN
     /\ held' = [held EXCEPT ![c] = Rec(x.ct, x.m.nonce)]
     /\ cache' = [cache EXCEPT ![c] = Man(x.m)]
     /\ shardrec' = [shardrec EXCEPT ![c] = Shr(x.m)]
@@ -127,10 +134,9 @@ Store(c, d) ==
 
 \* Node::receive_chunk(manifest, ciphertext)
 Import(c, kind, d, e) ==
-    LET r == Tamper(kind, Pub(c, d), Pub(c, e))
-        pt == Open(r.m, r.ct)
-        okh == Hash(pt) = r.m.hash
-        acc == DevImportUnverified \/ okh
+    LET r == TamperT[c][kind][d][e]
+        pt == r.pt
+        acc == DevImportUnverified \/ r.genuine
     IN /\ IF acc
           THEN /\ held' = [held EXCEPT ![c] = Rec(r.ct, r.m.nonce)]
                /\ cache' = [cache EXCEPT ![c] = Man(r.m)]
@@ -140,13 +146,13 @@ Import(c, kind, d, e) ==
                /\ meddled' = [meddled EXCEPT ![c] = FALSE]
           ELSE /\ held' = IF DevStoreBeforeVerify THEN [held EXCEPT ![c] = Rec(r.ct, r.m.nonce)] ELSE held
                /\ UNCHANGED <<cache, shardrec, prov, truth, meddled>>
-       /\ last' = [NoLast EXCEPT !.op = "import", !.c = c, !.ok = acc, !.out = IF acc THEN pt ELSE <<>>, !.genuine = Genuine(r.m, r.ct),
+       /\ last' = [NoLast EXCEPT !.op = "import", !.c = c, !.ok = acc, !.out = IF acc THEN pt ELSE <<>>, !.genuine = r.genuine,
                                  !.changed = (<<held', cache', shardrec', prov'>> # <<held, cache, shardrec, prov>>), !.tampered = (kind # "none")]
        /\ hist' = Append(hist, [op |-> "import", c |-> c, kind |-> kind, d |-> d, e |-> e])
 
 \* ingest_manifest / handle_announce / request_chunk: no look at what the node holds
 Ingest(c, kind, d, e) ==
-    LET m == Tamper(kind, Pub(c, d), Pub(c, e)).m IN
+    LET m == TamperT[c][kind][d][e].m IN
     /\ cache' = [cache EXCEPT ![c] = Man(m)]
     /\ shardrec' = [shardrec EXCEPT ![c] = Shr(m)]
     /\ meddled' = [meddled EXCEPT ![c] = @ \/ (truth[c] # None /\ truth[c].own # m)]
